@@ -4,23 +4,13 @@ open Yaclib.FiberSync
 
 set_option maxHeartbeats 4000000 in
 theorem inv_step_0 {k s l s'} (hi : Inv k s) (hs : Step s l s') (hg : grpOf l = 0) : Inv k s' := by
-  cases hi
   cases hs with
-  | xFast f h ho => sm_auto
-  | xPark f h ho => sm_auto
-  | xWokenAcq f h => sm_auto
-  | xRecheckAcq f h ho => sm_auto
-  | xRepark f h ho => sm_auto
-  | tryXOk f h ho => sm_auto
-  | tryXFail f h ho => sm_auto
-  | sFast f h hx => sm_auto
-  | sPark f hfx h hx => sm_auto
-  | sParkF f hfx h hx => sm_auto
-  | sRecheckAcq f h hx => sm_auto
-  | sRepark f h hx => sm_auto
-  | sWokenAcq f h => sm_auto
-  | trySOk f h hx => sm_auto
-  | trySFail f h hx => sm_auto
+  | xFast f h ho => cases hi; sm_auto
+  | xPark f h ho => cases hi; sm_auto
+  | xRecheckAcq f h ho => cases hi; sm_auto
+  | xRepark f h ho => cases hi; sm_auto
+  | tryXOk f h ho => cases hi; sm_auto
+  | tryXFail f h ho => cases hi; sm_auto
   | _ => simp [grpOf] at hg
 
 end Yaclib.FiberSync.Sm
